@@ -21,6 +21,7 @@ from fedjax.aggregators import aggregator
 from fedjax.aggregators import walsh_hadamard
 from fedjax.core import dataclasses
 from fedjax.core import tree_util
+from fedjax.core import util
 from fedjax.core.federated_data import ClientId
 from fedjax.core.typing import PRNGKey, Params
 
@@ -276,7 +277,8 @@ def drive_pytree(params: Params) -> Params:
   new_leaves = []
   for leaf in leaves:
     # this uses the unbiased scale from section 4.2 in DRIVE's paper (Scale = norm2(R(x))**2 / norm1(R(x)) )
-    new_leaves.append(jnp.sum(jnp.power(leaf, 2)) * jnp.sign(leaf) / jnp.sum(jnp.abs(leaf)))
+    scale = util.safe_div(jnp.sum(jnp.power(leaf, 2)), jnp.sum(jnp.abs(leaf)))
+    new_leaves.append(scale * jnp.sign(leaf))
   return jax.tree_util.tree_unflatten(tree_def, new_leaves)
 
 
